@@ -26,6 +26,7 @@ EXPLANATION = (
     "through every kernel, Activated/Aggregated.membership and the seven defuzzifiers: a batch keeps its row dimension, meets the sampling "
     "dimension only by column-against-row broadcasting, and every defuzzifier maps degrees (n,) to (n,) and () to (), also when the per-rule degrees have "
     "mixed shapes; V10 - no np.vectorize without otypes over a function with integer and non-integer results, no np.piecewise with a bare condition array"
+    "; H9 / H10 - no in-place update reaches an array another holder still reads (such aliasing exists for arrays only, so the two modes would differ); scalar() is numpy's conversion to a plain array of the library's float type"
 )
 ASSUMPTIONS = [
     "numpy ufuncs, np.where and arithmetic operators are elementwise; numeric equality of the two modes is not decided",
